@@ -318,7 +318,7 @@ class PEP8Normalizer(ErrorFinder):
             val = leaf.value
             needs_lines = (
                 val == '@' and leaf.parent.type == 'decorator'
-                or (
+                or leaf.type == 'keyword' and (
                     val == 'class'
                     or val == 'async' and leaf.get_next_leaf() == 'def'
                     or val == 'def' and self._previous_leaf != 'async'
